@@ -4,6 +4,7 @@
   in the correspondence run); the contract of the third-party strategies is the explicit hypothesis `drawOK`.
 -/
 import SV.Proofs.C02
+import SV.Proofs.C02Explicit
 
 namespace SV.Props.C02
 open SV SV.Model.C02 SV.Spec.C02 SV.Spec.JsonSchema SV.Proofs.C02
@@ -389,6 +390,349 @@ theorem mutate_rejects_iff_nothing_succeeded (ctx : Ctx) (results : List MResult
     simp [hs, hm]
   · have hm : MResult.success ∉ results := fun hm => hs (this.mpr (Or.inr hm))
     simp [hs, hm]
+
+/-! ## explicitly supplied values (`headers=` / `--header` / overrides / `as_strategy(query=…)`)
+
+`Variants` = ⟨labels, exclusion, unchanged⟩: the components map (F10), whether `can_negate_*` look at supplied
+parameters (FC02d), whether `value == explicit` or "nothing was drawn" drops the generator (FC02e). -/
+
+/-- Without explicit arguments the extended model is the model the theorems above speak about. -/
+theorem explicit_none_is_plain (vs : Variants) (op : Op) (only : Bool) (mode : Mode) (d : Draws) :
+    openapiCasesX vs op Explicits.none only mode d = openapiCases vs.labels op only mode d := by
+  have hb : bodyContainerX op Explicits.none mode d = bodyContainer op mode d := rfl
+  have hc : containersX vs op Explicits.none mode d = containers op mode d := by
+    simp [containersX, containers, generateParameterX_none, hb]
+  simp [openapiCasesX, openapiCases, hc]
+
+/-- **A location whose parameters are all supplied by the caller is never sent through the negative factory**
+    (every variant, every mode): `get_parameters_strategy` answers `st.none()` — or, when the fallback chose the
+    positive factory, the positive strategy of the empty schema. -/
+theorem all_supplied_never_negative_factory (vx : Variant) (op : Op) (rq : Reqs) (ex : Explicits) (mode : Mode) (l : Loc)
+    (rem : List Param) (req : List String) (h : allSupplied op ex l = true) :
+    strategyFor vx op rq ex mode l ≠ .factory .negative rem req := by
+  intro hs
+  unfold strategyFor at hs
+  obtain ⟨hm, hrem, _, himp⟩ := parametersStrategy_factory _ _ _ _ _ _ _ hs
+  have hempty : rem.isEmpty = true := by
+    rw [hrem]
+    unfold allSupplied at h
+    split at h
+    · rename_i p e hex
+      rw [hex]
+      simp only [List.all_eq_true] at h
+      simp only [remaining, List.isEmpty_iff, List.filter_eq_nil_iff, Bool.not_eq_true', Bool.not_eq_false]
+      exact h
+    · cases h
+  have := himp hempty
+  rw [this] at hm
+  cases hm
+
+/-- … with the repaired `can_negate_*` the answer is always `st.none()`. -/
+theorem all_supplied_strategy_none_repaired (op : Op) (rq : Reqs) (ex : Explicits) (l : Loc)
+    (h : allSupplied op ex l = true) : strategyFor .repaired op rq ex .negative l = .none := by
+  rcases parametersStrategy_none_or_factory (op.params l) (rq.at l) (generatorForX .repaired op ex .negative l)
+      (excludeNames (ex.param l)) with hs | ⟨rem, req, hs⟩
+  · exact hs
+  · have hg : generatorForX .repaired op ex .negative l = .negative := by
+      unfold allSupplied at h
+      split at h
+      · rename_i p e hex
+        simp only [List.all_eq_true] at h
+        have : remaining (op.params l) (excludeNames (some (p :: e))) = [] := by
+          simp only [remaining, List.filter_eq_nil_iff, Bool.not_eq_true', Bool.not_eq_false]
+          exact h
+        simp [generatorForX, judged, hex, this, canNegatePath, canNegateHeaders]
+      · cases h
+    have hne := all_supplied_never_negative_factory .repaired op rq ex .negative l rem req h
+    unfold strategyFor at hne
+    rw [hg] at hs hne
+    exact absurd hs hne
+
+/-- A location whose strategy is `st.none()` carries no label, and the case holds exactly the caller's value there
+    (`None` when nothing was supplied) — the supplied part is nobody's generated data. -/
+theorem none_strategy_location_unlabelled (vs : Variants) (hlab : vs.labels = .repaired) (valid : Loc → Json → Bool)
+    (op : Op) (rq : Reqs) (ex : Explicits) (only : Bool) (d : Draws) (c : Case) (l : Loc) (hl : l ∈ paramLocs)
+    (hs : strategyFor vs.exclusion op rq ex .negative l = .none)
+    (hd : drawOKX vs valid op rq ex .negative d = true)
+    (hc : openapiCasesX vs op ex only .negative d = .case c) :
+    (∀ m, (l, m) ∉ c.components) ∧ valueOf c l = mergeValue (ex.param l) none := by
+  obtain ⟨_, hc⟩ := openapiCasesX_case vs op ex only d c hc
+  subst hc
+  have hd' := hd
+  unfold drawOKX at hd'
+  simp only [Bool.and_eq_true, List.all_eq_true] at hd'
+  have hng := container_of_none_strategy vs valid op rq ex d l hl hs (hd'.1 l hl)
+  have hdraw : d.param l = none := by
+    have := hd'.1 l hl
+    unfold paramDrawOKX at this
+    rw [hs] at this
+    cases h : d.param l with
+    | none => rfl
+    | some _ => simp [h] at this
+  constructor
+  · intro m hm
+    obtain ⟨cn, hcn, hloc, _, hl'⟩ := mem_componentsOf _ _ l m hm
+    rw [hlab] at hl'
+    simp only [labelled] at hl'
+    rcases mem_containersX vs op ex .negative d cn hcn with ⟨l', _, rfl⟩ | rfl
+    · have : l' = l := by simpa [generateParameterX] using hloc
+      subst this
+      rw [hng] at hl'; cases hl'
+    · rw [bodyContainerX_loc] at hloc
+      subst hloc
+      simp [paramLocs] at hl
+  · have := lookup_loc_valueX vs op ex .negative d .negative
+      (componentsOf vs.labels (containersX vs op ex .negative d)) _ (generateParameterX_mem vs op ex .negative d l hl)
+    simp only [generateParameterX] at this
+    rw [this, hdraw]
+
+/-- non-vacuity: the operation of the demonstration — a constrained header supplied by the caller, an integer query
+    parameter left to generate -/
+example :
+    let valid : Loc → Json → Bool := fun _ _ => false
+    let op : Op := ⟨[], [⟨"X-Token", .obj [("type", .str "string"), ("minLength", .num 8 0)], true⟩], [],
+                    [⟨"limit", .obj [("type", .str "integer")], true⟩], []⟩
+    let rq : Reqs := ⟨[], ["X-Token"], [], ["limit"]⟩
+    let ex : Explicits := ⟨none, some [("X-Token", .str "secret-token")], none, none, none⟩
+    let d : Draws := ⟨none, none, none, some (.obj [("limit", .num 0 0)]), 0, none⟩
+    let vs : Variants := ⟨.repaired, .asFound, .asFound⟩
+    allSupplied op ex .header = true ∧ strategyFor vs.exclusion op rq ex .negative .header = .none ∧
+    drawOKX vs valid op rq ex .negative d = true ∧ negatableX vs.exclusion op rq ex = true ∧
+    (∃ c, openapiCasesX vs op ex true .negative d = .case c) := by
+  refine ⟨by decide, rfl, by decide, by decide, ⟨_, rfl⟩⟩
+
+/-- **Repaired: the negative factory only ever sees parameters that can be negated** (by the code's own
+    criterion, applied to what is left to generate). -/
+theorem negative_factory_only_on_negatable_repaired : NegativeFactoryOnlyOnNegatable .repaired := by
+  intro op rq ex l rem req hl hs
+  unfold strategyFor at hs
+  obtain ⟨hm, hrem, _, himp⟩ := parametersStrategy_factory _ _ _ _ _ _ _ hs
+  have hne : rem.isEmpty = false := by
+    cases h : rem.isEmpty with
+    | false => rfl
+    | true => have := himp h; rw [this] at hm; cases hm
+  have hg := hm.symm
+  unfold generatorForX at hg
+  simp only [judged, ← hrem, beq_self_eq_true, Bool.true_and] at hg
+  unfold negatableParams
+  simp only [hne, Bool.not_false, Bool.true_and, Bool.and_eq_true, Bool.or_eq_true, bne_iff_ne, ne_eq,
+    Bool.not_eq_true']
+  split at hg
+  · cases hg
+  · rename_i hcond
+    simp only [Bool.or_eq_true, Bool.and_eq_true, beq_iff_eq, Bool.not_eq_true', not_or, not_and,
+      Bool.not_eq_false] at hcond
+    constructor
+    · by_cases hp : l = .path
+      · exact Or.inr (hcond.1 hp)
+      · exact Or.inl hp
+    · cases hh : isHeaderLoc l with
+      | false => exact Or.inl rfl
+      | true => exact Or.inr (hcond.2 hh)
+
+/-- **As found (FC02d): it is false** — `can_negate_headers` also counts the supplied integer header `X-A`, so the
+    negative factory is asked to negate the lone remaining `{type: string}` header `X-B`, which no mutation can. -/
+theorem negative_factory_only_on_negatable_false_asFound : ¬ NegativeFactoryOnlyOnNegatable .asFound := by
+  intro h
+  have := h ⟨[], [⟨"X-A", .obj [("type", .str "integer")], true⟩, ⟨"X-B", .obj [("type", .str "string")], true⟩], [], [], []⟩
+    ⟨[], [], [], []⟩ ⟨none, some [("X-A", .str "1")], none, none, none⟩ .header _ _ (by decide) rfl
+  revert this
+  decide
+
+/-- **Repaired `unchanged` site: the full "does get negative cases" statement with explicit values.** -/
+theorem gets_cases_X_repaired (vs : Variants) (hu : vs.unchanged = .repaired) : GetsCasesFullX vs := by
+  intro valid op rq ex only d hn hd
+  refine gets_cases_core vs valid op rq ex only d hn hd ?_
+  intro l hl hneg
+  obtain ⟨rem, req, hs⟩ := (isNegativeFactory_iff _).mp hneg
+  have hd' := hd
+  unfold drawOKX at hd'
+  simp only [Bool.and_eq_true, List.all_eq_true] at hd'
+  obtain ⟨_, new, x, hdraw, _, _⟩ := container_of_factory_strategy vs valid op rq ex d l _ rem req hs (hd'.1 l hl)
+  rw [hu, hdraw]
+  simp only [generatorDropped]
+  split <;> first | rfl | simp
+
+/-- **As found (FC02e): it is false** — the negative draw `{}` (the required header `X-B` omitted) merges to the
+    caller's dict, `value == explicit` drops the generator and the only negated part of the case is lost:
+    `SkipTest` although the draw *is* a negative case. -/
+theorem gets_cases_X_full_false_asFound : ¬ GetsCasesFullX ⟨.repaired, .asFound, .asFound⟩ := by
+  intro h
+  obtain ⟨c, hc⟩ := h (fun _ _ => false)
+    ⟨[], [⟨"X-A", .obj [("type", .str "integer")], true⟩, ⟨"X-B", .obj [("type", .str "string")], true⟩], [], [], []⟩
+    ⟨[], ["X-B"], [], []⟩ ⟨none, some [("X-A", .str "1")], none, none, none⟩ true
+    ⟨none, some (.obj []), none, none, 0, none⟩ (by decide) (by decide)
+  have hskip : openapiCasesX ⟨.repaired, .asFound, .asFound⟩
+    ⟨[], [⟨"X-A", .obj [("type", .str "integer")], true⟩, ⟨"X-B", .obj [("type", .str "string")], true⟩], [], [], []⟩
+    ⟨none, some [("X-A", .str "1")], none, none, none⟩ true .negative
+    ⟨none, some (.obj []), none, none, 0, none⟩ = .skip := rfl
+  rw [hskip] at hc
+  cases hc
+
+/-- **As found: partial** — a case is produced whenever the merged value of every negatively generated location
+    differs from what the caller supplied. -/
+theorem gets_cases_X_partial_asFound (vs : Variants) (valid : Loc → Json → Bool) (op : Op) (rq : Reqs) (ex : Explicits)
+    (only : Bool) (d : Draws)
+    (hn : negatableX vs.exclusion op rq ex = true)
+    (hd : drawOKX vs valid op rq ex .negative d = true)
+    (hdiff : ∀ l ∈ paramLocs, isNegativeFactory (strategyFor vs.exclusion op rq ex .negative l) = true →
+      sameAsExplicit (mergeValue (ex.param l) (d.param l)) (ex.param l) = false) :
+    ∃ c, openapiCasesX vs op ex only .negative d = .case c := by
+  refine gets_cases_core vs valid op rq ex only d hn hd ?_
+  intro l hl hneg
+  cases hu : vs.unchanged with
+  | asFound => simpa [generatorDropped] using hdiff l hl hneg
+  | repaired =>
+    obtain ⟨rem, req, hs⟩ := (isNegativeFactory_iff _).mp hneg
+    have hd' := hd
+    unfold drawOKX at hd'
+    simp only [Bool.and_eq_true, List.all_eq_true] at hd'
+    obtain ⟨_, new, x, hdraw, _, _⟩ := container_of_factory_strategy vs valid op rq ex d l _ rem req hs (hd'.1 l hl)
+    rw [hdraw]
+    simp only [generatorDropped]
+    split <;> first | rfl | simp
+
+/-- non-vacuity of the partial statement: the same operation, the draw adds a header -/
+example :
+    let vs : Variants := ⟨.repaired, .asFound, .asFound⟩
+    let op : Op := ⟨[], [⟨"X-A", .obj [("type", .str "integer")], true⟩, ⟨"X-B", .obj [("type", .str "string")], true⟩], [], [], []⟩
+    let rq : Reqs := ⟨[], ["X-B"], [], []⟩
+    let ex : Explicits := ⟨none, some [("X-A", .str "1")], none, none, none⟩
+    let d : Draws := ⟨none, some (.obj [("zz", .str "1")]), none, none, 0, none⟩
+    negatableX vs.exclusion op rq ex = true ∧ drawOKX vs (fun _ _ => false) op rq ex .negative d = true ∧
+    (∀ l ∈ paramLocs, isNegativeFactory (strategyFor vs.exclusion op rq ex .negative l) = true →
+      sameAsExplicit (mergeValue (ex.param l) (d.param l)) (ex.param l) = false) := by
+  decide
+
+/-- **Skipped, not failed — with explicit values** (all variants): nothing that is left to generate can be negated
+    ⇒ `SkipTest` with `modes = [negative]`, a rejected draw otherwise; never a case. -/
+theorem skip_not_fail_X (vs : Variants) (valid : Loc → Json → Bool) (op : Op) (rq : Reqs) (ex : Explicits)
+    (only : Bool) (d : Draws)
+    (hn : negatableX vs.exclusion op rq ex = false)
+    (hd : drawOKX vs valid op rq ex .negative d = true) :
+    openapiCasesX vs op ex only .negative d = if only then .skip else .reject :=
+  skip_not_fail_X' vs valid op rq ex only d hn hd
+
+/-- non-vacuity: everything supplied -/
+example :
+    let vs : Variants := ⟨.repaired, .asFound, .asFound⟩
+    let op : Op := ⟨[], [⟨"X-A", .obj [("type", .str "integer")], true⟩], [], [⟨"q", .obj [("type", .str "integer")], true⟩], []⟩
+    let ex : Explicits := ⟨none, some [("X-A", .str "1")], none, some [("q", .num 1 0)], none⟩
+    negatableX vs.exclusion op ⟨[], [], [], []⟩ ex = false ∧
+    drawOKX vs (fun _ _ => true) op ⟨[], [], [], []⟩ ex .negative ⟨none, none, none, none, 0, none⟩ = true := by
+  decide
+
+/-- **Label soundness with explicit values** (repaired components map; either variant of the two explicit sites). -/
+theorem labels_sound_X (vs : Variants) (hl : vs.labels = .repaired) : LabelsSoundFullX vs := by
+  intro valid op rq ex only d c hd hc
+  exact labels_sound_X' vs hl valid op rq ex only d c hd hc
+
+/-- The strategy cache of `get_parameters_strategy` is keyed by `(factory, location, sorted(exclude))`: equal keys
+    give the same strategy, for every operation — a cached strategy is never one built for another exclusion set. -/
+theorem strategy_cache_key_sound (f f' : Mode) (l l' : Loc) (e1 e2 : List String)
+    (h : stratKey f l e1 = stratKey f' l' e2) (ps : List Param) (rq : List String) :
+    f = f' ∧ l = l' ∧ parametersStrategy ps rq f e1 = parametersStrategy ps rq f' e2 := by
+  unfold stratKey at h
+  injection h with hf hl he
+  subst hf hl
+  exact ⟨rfl, rfl, parametersStrategy_congr ps rq f e1 e2 (contains_of_sort_eq e1 e2 he)⟩
+
+/-- a key that forgot the exclusion set would hand out the strategy built for other supplied names -/
+example :
+    parametersStrategy [⟨"a", .obj [], true⟩, ⟨"b", .obj [], true⟩] [] .negative ["a"] = .factory .negative [⟨"b", .obj [], true⟩] [] ∧
+    parametersStrategy [⟨"a", .obj [], true⟩, ⟨"b", .obj [], true⟩] [] .negative ["a", "b"] = .none := ⟨rfl, rfl⟩
+
+/-- What the caller supplied reaches the case: a name the drawn part does not mention keeps the supplied value. -/
+theorem merge_keeps_supplied_values (e new : Dict) (k : String) (h : k ∉ new.map (·.1)) :
+    Json.lookup k (dupdate e new) = Json.lookup k e :=
+  lookup_dupdate_not_mem k new e h
+
+/-- **False in full**: a drawn part that violates the reduced location schema only by carrying a supplied name
+    overwrites the caller's value and the merged part may conform. -/
+theorem merge_keeps_violation_full_false : ¬ MergeKeepsViolationFull := by
+  intro h
+  have := h (fun _ _ => true) ["a", "b"] [] [("a", .num 1 0)] [("a", .num 2 0)] (by simp [uniqueKeys]) (by decide)
+  revert this
+  decide
+
+/-- **Partial**: if the drawn part does not mention a supplied name, a violation of the reduced location schema
+    (`properties` / `required` without the supplied names, `additionalProperties: false`) is a violation of the
+    declared one after merging. -/
+theorem merge_keeps_violation_partial (pv : String → Json → Bool) (names req : List String) (e new : Dict)
+    (hu : uniqueKeys new)
+    (hno : ∀ kv ∈ new, (e.map (·.1)).contains kv.1 = false)
+    (h : locValid pv (without names (e.map (·.1))) (without req (e.map (·.1))) new = false) :
+    locValid pv names req (dupdate e new) = false :=
+  merge_keeps_violation' pv names req e new hu hno h
+
+example : locValid (fun _ _ => true) (without ["a", "b"] ["a"]) (without ["b"] ["a"]) [] = false ∧
+    uniqueKeys ([] : Dict) := ⟨by decide, by simp [uniqueKeys]⟩
+
+/-- … and a drawn part that conforms to the reduced schema merges to a conforming part when the supplied values
+    themselves conform. -/
+theorem merge_keeps_conformance (pv : String → Json → Bool) (names req : List String) (e new : Dict)
+    (hu : uniqueKeys new)
+    (he : ∀ kv ∈ e, names.contains kv.1 = true ∧ pv kv.1 kv.2 = true)
+    (h : locValid pv (without names (e.map (·.1))) (without req (e.map (·.1))) new = true) :
+    locValid pv names req (dupdate e new) = true :=
+  merge_keeps_conformance' pv names req e new hu he h
+
+example : locValid (fun _ _ => true) (without ["a", "b"] ["a"]) (without ["b"] ["a"]) [("b", .null)] = true ∧
+    uniqueKeys [("b", Json.null)] := ⟨by decide, by simp [uniqueKeys]⟩
+
+/-! ## the body strategy and registered media-type strategies -/
+
+/-- **Repaired: a body labelled negative is drawn from the negative factory** (no registered strategy, no `NOT_SET`). -/
+theorem negative_body_from_negative_factory_repaired : NegativeBodyFromNegativeFactory .repaired := by
+  intro items it hg hit
+  unfold bodyCandidatesM at hg hit
+  simp only [beq_self_eq_true, if_true] at hg hit
+  split at hg
+  · cases hg
+  · rename_i hne
+    simp only [hne, Bool.false_eq_true, if_false, List.mem_filter] at hit
+    have hc : it.custom = false := by
+      have := hit.2
+      simp only [negatableItem, Bool.and_eq_true, Bool.or_eq_true, beq_iff_eq, reduceCtorEq, false_or,
+        Bool.not_eq_true'] at this
+      exact this.2
+    simp [bodyStrategyM, hc]
+
+/-- **As found (FC02g): false** — a media type with a registered strategy whose schema `can_negate` accepts is a
+    candidate; the user's own data is labelled negative. -/
+theorem negative_body_from_negative_factory_false_asFound : ¬ NegativeBodyFromNegativeFactory .asFound := by
+  intro h
+  have := h [⟨⟨true, true⟩, true⟩] ⟨⟨true, true⟩, true⟩ (by decide) (by decide)
+  revert this
+  decide
+
+/-- The candidate selection with registered strategies is the label model's selection on the effective items. -/
+theorem bodyCandidatesM_effective (v : Variant) (mode : Mode) (items : List BodyItemM) :
+    (bodyCandidatesM v mode items).2 = (bodyCandidates mode (items.map (BodyItemM.effective v))).2 ∧
+    (bodyCandidatesM v mode items).1.map (BodyItemM.effective v) = (bodyCandidates mode (items.map (BodyItemM.effective v))).1 := by
+  unfold bodyCandidatesM bodyCandidates
+  have hf : (items.map (BodyItemM.effective v)).filter (·.canNeg) = (items.filter (negatableItem v)).map (BodyItemM.effective v) := by
+    induction items with
+    | nil => rfl
+    | cons a rest ih =>
+      simp only [List.map_cons, List.filter_cons, BodyItemM.effective]
+      cases hn : negatableItem v a <;> simp_all [BodyItemM.effective]
+  cases mode
+  · simp
+  · simp only [beq_self_eq_true, if_true, hf, List.isEmpty_map]
+    split <;> simp
+
+/-- The positive fallback never uses the negative factory, and only the positive factory may leave an optional body out. -/
+theorem body_strategy_absent_only_when_positive (it : BodyItemM) (f m : Mode) (b : Bool)
+    (h : bodyStrategyM it f = .factory m b) : m = f ∧ (b = true → f = .positive ∧ it.item.required = false) := by
+  unfold bodyStrategyM at h
+  split at h
+  · cases h
+  · injection h with h1 h2
+    refine ⟨h1.symm, ?_⟩
+    intro hb
+    rw [hb] at h2
+    cases f <;> simp_all
 
 /-! ## the wire spelling (finding F9) -/
 
